@@ -37,7 +37,7 @@ Module Names.
 Import Coq.Strings.String.
 (* OBLIGATION *)
 Theorem translated_functions :
-  L.translated = ["Add"; "All"; "Any"; "Clear"; "Contains"; "Difference"; "Empty"; "Find"; "Intersection"; "Map"; "New"; "Remove"; "Select"; "Size"; "Union"; "Values"]%string
+  L.translated = ["Add"; "All"; "Any"; "Clear"; "Contains"; "Difference"; "Empty"; "Find"; "FromJSON"; "Intersection"; "Map"; "MarshalJSON"; "New"; "Remove"; "Select"; "Size"; "ToJSON"; "Union"; "UnmarshalJSON"; "Values"]%string
   /\ L.skipped = ["Each"; "String"]%string /\ L.not_selected = [].
 Proof. repeat split. Qed.
 Print Assumptions translated_functions.
